@@ -2,6 +2,7 @@ package harness
 
 import (
 	"context"
+	"strings"
 	"testing"
 	"time"
 )
@@ -72,15 +73,53 @@ func (w *world) checkQuiescence(sc *scenario, complete bool) {
 				continue
 			}
 
-			stored := false
+			stored, storeStep := false, -1
 
 			for _, r := range w.log.be {
 				if r.op == "write" && r.err == nil && r.key == key && r.task == b.task && r.val == interface{}(b.tok) {
-					stored = true
+					stored, storeStep = true, r.step
 				}
 			}
 
 			if !stored {
+				continue
+			}
+
+			// Without SyncRead a Get that read the old value BEFORE that store may become the owner after it,
+			// re-store the stale value (UpdateTTL) and then not build at all because a failure is cached
+			// (documented weakness that SyncRead exists for): the stale value is what remains.
+			staleRestore := false
+
+			if !w.cfg.syncRead {
+				for _, r2 := range w.log.be {
+					if r2.op != "write" || r2.err != nil || r2.key != key || r2.step <= storeStep || r2.task == b.task || r2.val == interface{}(b.tok) {
+						continue
+					}
+
+					owner := strings.SplitN(r2.task, ".", 2)[0]
+					ownBuild := false
+
+					for _, b2 := range w.log.builds {
+						if interface{}(b2.tok) == r2.val && strings.SplitN(b2.task, ".", 2)[0] == owner {
+							ownBuild = true // the (late) final store of the owner's own build is not a stale re-store
+						}
+					}
+
+					if ownBuild {
+						continue
+					}
+
+					for _, r1 := range w.log.be {
+						if r1.op == "read" && r1.key == key && r1.step < storeStep && strings.SplitN(r1.task, ".", 2)[0] == owner {
+							staleRestore = true
+						}
+					}
+				}
+			}
+
+			if staleRestore {
+				c.Class("stale-restored-after-newer-build")
+
 				continue
 			}
 
